@@ -95,6 +95,9 @@ def monitor_cases(rng, tier, stats):
             eps = 10.0 ** rng.uniform(-10, -3)
             decay = False
             guess = None if rng.random() < 0.7 else "user"
+            routine = ["fast_matvec", "dmrg_hadamard", "amen_mv", "amen_mm"][(c // 4) % 4]
+            cplx = False
+            dt = tn.float64
             fam = "/interior-singleton"
         seed = rng.randrange(1 << 30)
         label = "%s/d%d/%s%s%s%s" % (routine, d, "c128" if cplx else "f64", "/decay" if decay else "", "/guess" if guess else "", fam)
